@@ -664,7 +664,17 @@ fn one_case(rep: &mut Report, cx: &mut Ctx, c: &Case, ans: &str) {
     if let Some(l) = &c.log {
         let _ = std::fs::remove_file(fx.join(l));
     }
-    let bin = run_bin(&fx, &argv, Duration::from_secs(20));
+    let mut bin = run_bin(&fx, &argv, Duration::from_secs(20));
+    let mut logged_on_stdout = String::new();
+    if c.log.as_deref() == Some("stdout") {
+        // `--log stdout`: log lines (`hh:mm:ss [LEVEL] …`) share the stream with the reports
+        let text = std::mem::take(&mut bin.stdout);
+        for l in text.split_inclusive(|b| *b == b'\n') {
+            let is_log = ["[ERROR]", "[WARN]", "[INFO]"].iter().any(|m| l.windows(m.len()).any(|w| w == m.as_bytes()));
+            if is_log { logged_on_stdout.push_str(&String::from_utf8_lossy(l)); } else { bin.stdout.extend_from_slice(l); }
+        }
+    }
+    let bin = bin;
     let got = snapshot(&fx);
     let log_created = c.log.as_ref().map(|l| fx.join(l).is_file());
     let canon = argv.join(" ");
@@ -752,7 +762,7 @@ fn one_case(rep: &mut Report, cx: &mut Ctx, c: &Case, ans: &str) {
             _ => "panic",
         };
         let log_text = c.log.as_ref().and_then(|l| std::fs::read_to_string(fx.join(l)).ok()).unwrap_or_default();
-        let said = bin.stderr.contains(pat) || log_text.contains(pat) || c.lvl.as_deref() == Some("OFF");
+        let said = bin.stderr.contains(pat) || log_text.contains(pat) || logged_on_stdout.contains(pat) || c.lvl.as_deref() == Some("OFF");
         let reports: Vec<&String> = got.keys().filter(|k| !(c.out == OutKind::ExistingFile && *k == "outB") && !(c.out == OutKind::Dir && *k == "outB/")).collect();
         if bin.exit != Some(code) || !said || !reports.is_empty() || !bin.stdout.is_empty() {
             mismatch(rep, format!("model: panic {} with exit status {} and no report; binary: exit {:?}, message found: {}, files written: {:?}, {} bytes on stdout",
